@@ -252,6 +252,59 @@ def items(src):
     yield ("MsgType", "tidFromU128", "(x : Nat)", tid_from, "(x &&& 79228162514264337593543950335)")
 
 
+
+ADDR = "stun-types/src/attribute/address.rs"
+FPR = "stun-types/src/attribute/fingerprint.rs"
+GROUP_IMPORTS = {"Xor": ["StunVerif.Gen.MsgType"]}
+
+
+def items_xor(src):
+    addr = src.get(ADDR)
+    body = fn_body(addr, r"pub\s+fn\s+xor_addr\s*\(") or ""
+    # split into the V4 and V6 arms
+    i4 = body.find("SocketAddr::V4(addr) =>")
+    i6 = body.find("SocketAddr::V6(addr) =>")
+    arm4 = body[i4:i6] if 0 <= i4 < i6 else ""
+    arm6 = body[i6:] if i6 >= 0 else ""
+    env = {"MAGIC_COOKIE": "magicCookie", "addr.port()": "port"}
+
+    def port(arm, name):
+        def th():
+            m = re.search(r"let\s+port\s*=\s*addr\.port\(\)\s*\^\s*([^;]+);", arm)
+            if not m:
+                raise XlateError(f"{name}: port expression not found")
+            return "(port ^^^ " + xlate(m.group(1), env, 32) + ")"
+        return th
+    yield ("Xor", "xorPortV4", "(port : Nat)", port(arm4, "v4"), "(port ^^^ ((magicCookie >>> 16) % 65536))")
+    yield ("Xor", "xorPortV6", "(port : Nat)", port(arm6, "v6"), "(port ^^^ ((magicCookie >>> 16) % 65536))")
+
+    def const6():
+        m = re.search(r"let\s+const_octets\s*=\s*\((.+?)\)\s*\.to_be_bytes\(\)\s*;", arm6, flags=re.S)
+        if not m or not re.search(r"let\s+transaction\s*:\s*u128\s*=\s*transaction\.into\(\)\s*;", arm6):
+            raise XlateError("v6 const_octets shape")
+        if not re.search(r"bytewise_xor!\(\s*16\s*,\s*const_octets\s*,\s*addr_octets\s*,\s*0\s*\)", arm6):
+            raise XlateError("v6 bytewise_xor shape")
+        return xlate(" ".join(m.group(1).split()), {"MAGIC_COOKIE": "magicCookie", "transaction": "t"}, 128)
+    yield ("Xor", "xorConst6", "(t : Nat)", const6,
+           "((((magicCookie % 340282366920938463463374607431768211456) <<< 96) % 340282366920938463463374607431768211456) ||| (t &&& 79228162514264337593543950335))")
+
+    def const4():
+        if not re.search(r"let\s+const_octets\s*=\s*MAGIC_COOKIE\.to_be_bytes\(\)\s*;", arm4):
+            raise XlateError("v4 const_octets shape")
+        if not re.search(r"bytewise_xor!\(\s*4\s*,\s*const_octets\s*,\s*addr_octets\s*,\s*0\s*\)", arm4):
+            raise XlateError("v4 bytewise_xor shape")
+        return "magicCookie"
+    yield ("Xor", "xorConst4", "", const4, "magicCookie")
+
+    def fpconst():
+        m = re.search(r"const\s+XOR_CONSTANT\s*:\s*\[u8;\s*4\]\s*=\s*\[([^\]]+)\]\s*;", src.get(FPR))
+        if not m:
+            raise XlateError("XOR_CONSTANT not found")
+        vals = [xlate(x, {}, 8) for x in m.group(1).split(",") if x.strip()]
+        return "[" + ", ".join(vals) + "]"
+    yield ("Xor", "fingerprintXorConstant", ": List Nat", fpconst, "[83, 84, 85, 78]")
+
+
 def generate(repo, gen_dir):
     """writes <gen_dir>/<Group>.lean for every item group; files are only rewritten when their
     content changes (so that lake's traces stay valid)."""
@@ -260,7 +313,8 @@ def generate(repo, gen_dir):
     src = Src(repo)
     extracted, fallbacks = [], []
     groups = {}
-    for group, name, params, thunk, fallback in items(src):
+    import itertools
+    for group, name, params, thunk, fallback in itertools.chain(items(src), items_xor(src)):
         try:
             body = thunk()
             extracted.append(name)
@@ -273,7 +327,7 @@ def generate(repo, gen_dir):
     for group, defs in groups.items():
         lines = ["/- GENERATED by tools/extract_source.py from /repo's working tree on every run. Do not edit.",
                  "   Each definition is the code's own constant or expression, translated token by token. -/",
-                 "namespace StunVerif.Gen", ""] + defs + ["", "end StunVerif.Gen"]
+                 ] + [f"import {i}" for i in GROUP_IMPORTS.get(group, [])] + ["namespace StunVerif.Gen", ""] + defs + ["", "end StunVerif.Gen"]
         body = "\n".join(lines) + "\n"
         out_path = os.path.join(gen_dir, group + ".lean")
         if not os.path.exists(out_path) or open(out_path).read() != body:
